@@ -141,12 +141,17 @@ def check(ctx):
     ctx.clause = "7-peer-disconnect"
     n7 = 0
     for p in ops:
-        if p.atom("is_set_release_signal_from_peer") is True:
+        # a path on which the peer's release signal was never consulted also stands for the ticks in which the peer HAS gone
+        consulted = p.atom("is_set_release_signal_from_peer")
+        if consulted is True or (consulted is None and p.next_state() not in (None, "closed") and p.atom("is_set_release_signal_from_local") is True):
             n7 += 1
             ns = p.next_state()
             ctx.decide(ns == "closed", "R-PATH/peer-disconnect", f"{oci.qual}.run", W(oci, p), "peer disconnect ends in Closed",
-                       f"after the peer disconnected the tick ends in state `{ns}` instead of Closed (CLOSED is overwritten until the "
-                       f"queues drain) - {p.describe()}", key=f"disc:{sorted(p.atoms.items())}")
+                       (f"after the peer disconnected the tick ends in state `{ns}` instead of Closed (CLOSED is overwritten until the "
+                        f"queues drain) - {p.describe()}" if consulted is True else
+                        f"a tick that serves the local stop never looks at the peer's release signal: when both are pending the machine "
+                        f"sends a DPR on the dead transport and waits in `{ns}` for a DPA that cannot come - it never reaches Closed and the "
+                        f"transport is never released - {p.describe()}"), key=f"disc:{sorted(p.atoms.items())}")
     ctx.floor("peer_disconnect_paths", n7, 1)
 
     # ---- 4 Closing ------------------------------------------------------------------------------------
